@@ -308,8 +308,7 @@ def r38_valid(repo, sink):
     n = 0
     for name, topo, members in _topologies(repo):
         n += 1
-        me = Obj(cls=comp_cls, label="composition")
-        me.fields.update(_components=list(members), logger=Logger(label="logger"))
+        me = topo.composition(members)
         for c in topo.comps.values():
             c.fields["logger"] = Logger(label="logger")
         it = SchedInterp(repo)
@@ -354,18 +353,20 @@ def _metadata_links(repo, sink):
     adapters = set()
     for (out, elems, comp, inp) in t.links:
         adapters |= set(elems)
-    me = Obj(cls=comp_cls, label="composition")
-    in_owner = {}
     for k in t.comps.values():
         k.fields["metadata"] = {}
-        for i in k.fields["inputs"].values():
-            in_owner[i] = k
     for ad in adapters:
         ad.fields["metadata"] = {}
-    me.fields.update(_components=list(t.comps.values()), _adapters=adapters, _is_connected=True, _input_owners=in_owner,
-                     _time_frame=(None, None), logger=Logger(label="logger"))
+    me = t.composition()
     it = SchedInterp(repo)
     try:
+        # adapters found by the real collection; "connected" as connect() itself marks it
+        it.run(repo.resolve(comp_cls, "_collect_adapters", "method"), [], self_obj=me)
+        conn = repo.resolve(comp_cls, "connect", "method")
+        flags = [tt.attr for n in ast.walk(conn.node) if isinstance(n, ast.Assign) and isinstance(n.value, ast.Constant) and n.value.value is True
+                 for tt in n.targets if isinstance(tt, ast.Attribute) and isinstance(tt.value, ast.Name) and tt.value.id == "self"]
+        for fl in flags or ["_is_connected"]:
+            me.fields[fl] = True
         md = it.run(g, [], self_obj=me)
     except (Raised, Undecided, AnalysisError) as exc:
         sink.unknown("R38", "metadata-links", g, f"metadata not in vocabulary: {exc}")
